@@ -70,9 +70,16 @@ class Probe(operator.EmptyOperator):
             return obj
         return self._post(obj)
 
-    def __call__(self, sm, **kwargs):
-        """just pass the state matrix"""
-        return sm
+    def __call__(self, sm, *, inplace=False, **kwargs):
+        """just pass the state matrix (a copy, with its partial derivatives, unless applied in place)"""
+        if inplace:
+            return sm
+        new = sm.copy()
+        for name in ("order1", "order2"):
+            if hasattr(sm, name):
+                partials = getattr(sm, name)
+                setattr(new, name, {key: partials[key].copy() for key in partials})
+        return new
 
     def __repr__(self):
         return self.name or f"Probe({self._repr})"
